@@ -282,14 +282,14 @@ func (r *router) AttachClient(client wamp.Peer, transportDetails wamp.Dict) erro
 
 	sess.Details = sessDetails
 
-	if err := realm.handleSession(sess); err != nil {
+	// Join the realm, send WELCOME to the client, and start handling the
+	// session's messages.
+	if err := realm.handleSession(sess, welcome); err != nil {
 		// Any error returned here is a shutdown error.
 		sendAbort(wamp.ErrSystemShutdown, nil)
 		return err
 	}
 
-	verifGate("attach.beforeWelcome")
-	client.Send() <- welcome // Blocking OK; this is session goroutine.
 	if r.debug {
 		r.log.Println("Finished attaching session:", sid)
 	}
